@@ -27,7 +27,13 @@ def _one(args):
     chk = importlib.import_module(modname)
     src = sources[mut["module"]]
     want = mut.get("count", 1)
-    if mut.get("regex"):
+    if mut.get("edits"):
+        new = src
+        for old_, new_ in mut["edits"]:
+            if new.count(old_) != 1:
+                return dict(name=mut["name"], status="stale", detail=f"pattern occurs {new.count(old_)}x (expected 1): {old_[:40]!r}")
+            new = new.replace(old_, new_)
+    elif mut.get("regex"):
         import re
 
         new, n = re.subn(mut["old"], mut["new"], src)
